@@ -41,6 +41,8 @@ SCENARIOS = [
     "function f(){ async function inner(n){ probe(); await null; probe(); return r(n) } function r(n){ probe(); return n > 0 ? r(n - 1) : 0 } async function outer(){ probe(); await inner(3); probe() } outer(); probe(); }",
     "function f(){ var cap = 1; function g(){ probe(); return function(){ return cap++ } } probe(); g()(); (function(){ let blk = 2; probe(); return () => blk })()(); }",
     "function f(){ reenter('probe(); try { probe(); throw 1 } catch(e) { probe() } finally { probe() }'); probe(); callfn(function(){ probe(); return 1 }); probe(); }",
+    # a native that re-enters RunProgram and swallows a script exception (also the stack overflow at the depth limit): the caller's frame is intact
+    "function f(){ function d(n){ var r = reenterq('probe(); 1'); var s = r + 5; expect(s === 'ok5' || s === 'err5', s); return n > 0 ? d(n - 1) : s } d(3); probe(); }",
     # built-ins that keep runtime-wide bookkeeping while they call back into script (join's cycle detection)
     "function f(){ var a = [1, {toString(){ probe(); return 'b' }}, 3]; a.join('-'); probe(); String([a, 4]); var sep = {toString(){ probe(); return '+' }}; [1, 2].join(sep); a.toString(); a.toLocaleString(); probe(); }",
     # a generator closed (break / return()) while it is suspended inside a for-of over another generator whose finally block runs script
